@@ -239,6 +239,9 @@ macro_rules! explorer {
                                 let mut orig_before = node.clone();
                                 let before = orig_before.drain(len + 3);
                                 let mut c = node.clone();
+                                if c.span() != (s, e) || c.extras() != node.extras() || !c.slice_ok(src) {
+                                    complain(rep, "CLONE", &hist, format!("a fresh clone reports span {:?} / extras {} (original {:?} / {}) or its slice()/remainder() differ from the source", c.span(), c.extras(), (s, e), node.extras()));
+                                }
                                 let got = c.drain(len + 3);
                                 let mut orig_after = node.clone();
                                 let after = orig_after.drain(len + 3);
